@@ -15,10 +15,11 @@ import nbformat
 # sources
 # ---------------------------------------------------------------------------
 FAMILY = {
-    1: ("import numpy as np\nimport matplotlib.pyplot as plt\n\n"
+    # (the first two lines each hold a character outside the Basic Multilingual Plane, the second at an earlier column)
+    1: ("import numpy as np  # \U0001F600 arrays\n# \U0001F600 plots\nimport matplotlib.pyplot as plt\n\n"
         "def compute(x, y):\n    \"\"\"Return the scaled sum.\"\"\"\n    total = x + y\n"
         "    return total * 2.5\n\n\nvalues = [compute(i, i + 1) for i in range(10)]\nprint(values)\n"),
-    2: ("# Title of the section \U0001F600\n\nSome *markdown* text with an ![image](attachment:image.png)\n\n"
+    2: ("# Title of the section \U0001F600\n\U0001F600 a second line with that character, at column zero\n\nSome *markdown* text with an ![image](attachment:image.png)\n\n"
         "- item one\n- item two\n- item three is a bit longer than the others\n\n"
         "Final paragraph with non-ASCII: \u00e9\u00e8 \u65e5\u672c\u8a9e \u2603."),
     3: ("x = 1\r\ny = 2\r\nz = [x, y, x + y]\r\nfor item in z:\r\n    print(item)\r\n"
@@ -74,6 +75,14 @@ def source_variant(fam, v):
             ln = out[k]
             body = ln.rstrip("\r\n\x0b\x0c\x1c\x1d\x1e\x85\u2028\u2029")
             out[k] = body + (" # five" if v == 5 else " # six!") + ln[len(body):]
+        return "".join(out)
+    if v == 11:      # two consecutive lines edited inside the line: a character at column 0 of the first line (in front
+        out = list(lines)     # of everything on it), text appended to the second (behind everything on it)
+        if len(out) < 2:
+            return "X" + t
+        out[0] = "X" + out[0]
+        body = out[1].rstrip("\r\n\x0b\x0c\x1c\x1d\x1e\x85\u2028\u2029")
+        out[1] = body + " # end" + out[1][len(body):]
         return "".join(out)
     if v == 10:      # only the last line changes; it keeps its line ending (or its lack of one)
         out = list(lines)
@@ -317,7 +326,7 @@ def random_edit(r, nb, newfams=(7, 8, 21, 22)):
         label = ("ReId", i, cells[i]["cid"])
     elif k < 0.60:
         i = r.randrange(n)
-        cells[i]["src"] = r.choice([v for v in (0, 1, 1, 2, 2, 3, 4, 5, 6, 7, 8, 9, 10) if v != cells[i]["src"]])
+        cells[i]["src"] = r.choice([v for v in (0, 1, 1, 2, 2, 3, 4, 5, 6, 7, 8, 9, 10, 11) if v != cells[i]["src"]])
         label = ("EditSource", i, cells[i]["src"])
     elif k < 0.72:
         cands = [i for i in range(n) if cells[i]["kind"] == "code"]
